@@ -76,9 +76,9 @@ def _tracer_receiver(attr):
         for par in parents(attr):
             gens = par.generators if isinstance(par, (ast.ListComp, ast.SetComp, ast.GeneratorExp, ast.DictComp)) else []
             for g in gens:
-                if any(isinstance(x, ast.Name) and x.id == root.id for x in ast.walk(g.target)) and ("tensor" in norm(g.iter).lower() or norm(g.iter) in ("xs", "args")):
+                if any(isinstance(x, ast.Name) and x.id == root.id for x in ast.walk(g.target)) and (("tensor" in norm(g.iter).lower() and "expr" not in norm(g.iter).lower()) or norm(g.iter) in ("xs", "args")):
                     return True
-            if isinstance(par, ast.For) and any(isinstance(x, ast.Name) and x.id == root.id for x in ast.walk(par.target)) and "tensor" in norm(par.iter).lower():
+            if isinstance(par, ast.For) and any(isinstance(x, ast.Name) and x.id == root.id for x in ast.walk(par.target)) and "tensor" in norm(par.iter).lower() and "expr" not in norm(par.iter).lower():
                 return True
     return False
 
@@ -116,7 +116,7 @@ def _size_expr(e, tainted=()):
     or a local name derived from those."""
     for n in ast.walk(e):
         par = getattr(n, "_parent", None)
-        under_len = isinstance(par, ast.Call) and isinstance(par.func, ast.Name) and par.func.id == "len"
+        under_len = isinstance(par, ast.Call) and isinstance(par.func, ast.Name) and par.func.id in ("len", "id", "type", "isinstance")
         if isinstance(n, ast.Attribute) and n.attr in ("shape", "value"):
             if under_len:
                 continue  # len(x.shape) is a rank
@@ -359,6 +359,19 @@ def r3(p, rep):
                         rep.violation("C17.R3", key, site, f"`{norm(node)}` feeds a branch condition: whether code is emitted depends on divisibility of / by an axis length")
                     else:
                         rep.ok("C17.R3", key, site, "length arithmetic (value), not a decision")
+            elif isinstance(node, (ast.DictComp, ast.Dict)) or (isinstance(node, ast.Subscript) and isinstance(node.value, ast.Name)):
+                # a table keyed by an axis LENGTH: two axes of equal length share one entry, so what is emitted depends
+                # on which lengths happen to coincide
+                tn = _tainted_names(p, f)
+                keys = [node.key] if isinstance(node, ast.DictComp) else ([k for k in node.keys if k is not None] if isinstance(node, ast.Dict) else [])
+                if isinstance(node, ast.Subscript):
+                    defs = [a.value for a in walk_no_nested(f.node) if isinstance(a, ast.Assign) and any(isinstance(t, ast.Name) and t.id == node.value.id for t in a.targets)]
+                    if defs and all(isinstance(d, (ast.Dict, ast.DictComp)) or (isinstance(d, ast.Call) and norm(d.func) in ("dict", "defaultdict", "collections.defaultdict")) for d in defs):
+                        keys = [node.slice]
+                for k in keys:
+                    if _size_expr(k, tn) is not None and not isinstance(k, ast.Constant):
+                        n += 1
+                        rep.violation("C17.R3", f"{f.qualname}:key({norm(k)[:40]})", site, f"`{norm(k)}` (an axis length) is used as a dictionary key: axes that happen to have equal lengths share one entry, so the emitted calls depend on sizes other than 'is it 1'")
             elif isinstance(node, ast.Call):
                 ch = attr_chain(node.func)
                 fn = ch[-1] if ch else None
